@@ -38,7 +38,28 @@ def rand_cov(g, p, singular=False):
     C = B @ B.T
     if not singular:
         C = C + np.eye(p) * 0.25
-    return np.round(C, 4)
+    C = np.round(C, 4)
+    if singular and p >= 2 and g.random() < 0.6:
+        # EXACTLY singular (the rank-deficient product above is only numerically so): a variable that is an exact
+        # copy of another, or a deterministic one; and, beside it, a third that is an almost exact copy (an
+        # invertible but very ill-conditioned block, where two inversion routines agree to a few digits only)
+        C = C + np.eye(p) * 0.25
+        i, j = g.sample(range(p), 2)
+        r = g.random()
+        if r < 0.3:
+            C[j, :] = 0.0
+            C[:, j] = 0.0
+        else:
+            C[j, :] = C[i, :]
+            C[:, j] = C[:, i]
+            C[j, j] = C[i, i]
+            if p >= 3 and r < 0.75:
+                m = g.choice([x for x in range(p) if x not in (i, j)])
+                C[m, :] = C[i, :]
+                C[:, m] = C[:, i]
+                C[m, j] = C[j, m] = C[i, i]
+                C[m, m] = C[i, i] + g.choice([1e-13, 1e-12, 1e-11])
+    return C
 
 
 def rand_vec(g, p, lo, hi):
